@@ -1000,6 +1000,13 @@ def validate(ctx: Ctx, budget_s: float, max_cases: int):
             c, flavour = build_linear(a, n) + build_linear(b, n), "combined"
         theta = [float(dyadic(rng)) if rng.random() < 0.3 else rng.uniform(-7, 7) for _ in range(spec["P"])]
         if rng.random() < 0.15:
+            # legal argument types other than a list of floats: Python ints, a tuple, an integer numpy array
+            ints = [rng.randint(-3, 3) for _ in range(spec["P"])]
+            theta = rng.choice([ints, tuple(ints), np.array(ints, dtype=np.int64)])
+            flavour_suffix = "+int-params"
+        else:
+            flavour_suffix = ""
+        if rng.random() < 0.15:
             amp = np.array([complex(rng.gauss(0, 1), rng.gauss(0, 1)) for _ in range(1 << spec["n"])])
             amp = amp / np.linalg.norm(amp)
             spec["init"] = [[float(a.real), float(a.imag)] for a in amp]
@@ -1009,7 +1016,7 @@ def validate(ctx: Ctx, budget_s: float, max_cases: int):
         ctx.count("validate_estimator", "qulacs" if use_q else "numpy-dense")
         ctx.count("validate_flavour", flavour)
         n_eval += 1
-        validate_one(ctx, spec, c, flavour, theta, est, worst, lambda: rng.random() < 0.5)
+        validate_one(ctx, spec, c, flavour + flavour_suffix, theta, est, worst, lambda: rng.random() < 0.5)
     prev = ctx.extra.get("oracle_validation", {"cases": 0})
     ctx.extra["oracle_validation"] = {"cases": prev["cases"] + n_eval,
                                       **{k: max(float(f"{v:.3g}"), prev.get(k, 0.0)) for k, v in worst.items()}}
